@@ -165,6 +165,15 @@ func times() []time.Time {
 		// zones whose offset is not a whole number of hours
 		time.Date(2019, 1, 1, 5, 29, 59, 0, time.FixedZone("", 5*3600+1800)),
 		time.Date(2019, 6, 30, 20, 15, 30, 999999999, time.FixedZone("", -(9*3600+1800+7))),
+		// zone names: a zone's name says nothing about its offset
+		time.Date(2019, 3, 4, 5, 6, 7, 0, time.FixedZone("UTC", 2*3600)),
+		time.Date(2019, 3, 4, 23, 6, 7, 0, time.FixedZone("UTC", -7*3600)),
+		time.Date(2019, 3, 4, 5, 6, 7, 0, time.FixedZone("UTC", 0)),
+		time.Date(2019, 3, 4, 5, 6, 7, 0, time.FixedZone("GMT", 3600)),
+		time.Date(2019, 3, 4, 5, 6, 7, 0, time.FixedZone("Z", -3600)),
+		time.Date(2019, 3, 4, 1, 6, 7, 0, time.FixedZone("Local", 5*3600)),
+		time.Date(2019, 3, 4, 5, 6, 7, 0, time.FixedZone("CET", 0)),
+		time.Date(2019, 3, 4, 5, 6, 7, 0, time.Local),
 	}
 	return ts
 }
